@@ -100,6 +100,13 @@ fn json_str(s: &str) -> String {
 fn value_to_json(value: &DataValue) -> String {
     match value {
         DataValue::String(s) => json_str(s),
+        //JSON has no datetime type, the RFC 3339 representation is a string
+        DataValue::Datetime(v) => json_str(&v.to_rfc3339()),
+        DataValue::List(items) => {
+            let items: Vec<String> = items.iter().map(value_to_json).collect();
+            format!("[{}]", items.join(", "))
+        }
+        //null, booleans and numbers are written the same way in JSON
         x => x.to_string(),
     }
 }
